@@ -145,6 +145,14 @@ def build(numeric):
         rpc = f'M{i}'
         meths.append(method(rpc, Q(mname), Q('Resp'), http=http))
         cells.append(dict(id=f'kit/{kname}', rpc=rpc, py=f'm{i}', req=Q(mname), kind='kit'))
+    # a primary `custom` pattern (not transcodable) with regular additional bindings: the call goes through one of those
+    for bd in ('none', 'star'):
+        i += 1
+        rpc = f'M{i}'
+        extra = [('get' if bd == 'none' else 'post', f'/v1/c{i}/{{name=shelves/*}}', BODIES[bd]),
+                 ('delete', f'/v1/c{i}/alt/{{parent=shelves/*}}')]
+        meths.append(method(rpc, Q('Req'), Q('Resp'), http=('custom', ('HEAD', f'/v1/c{i}/{{name=shelves/*}}'), None, extra)))
+        cells.append(dict(id=f'custom-primary/{bd}', rpc=rpc, py=f'm{i}', req=Q('Req'), kind='bindings'))
     # server streaming over REST, and a method without any binding
     for bd in ('none', 'star'):
         i += 1
